@@ -31,6 +31,10 @@ func c03Round2(c *Ctx) {
 		c.Check(f.OK, "R03g", f.Key, f.Pos, "bounded", f.Detail)
 	}
 	c.runControl("R03g length octet control (ctl/lenoct.Put)", "lenoct.Put", lengthOctets)
+	c.Rule("R03i", "re-signing a xar shifts the recorded heap offset of every data entry", 1)
+	for _, f := range xarOffsetsRelocated(p) {
+		c.Check(f.OK, "R03i", f.Key, f.Pos, "every iteration shifts its entry", f.Detail)
+	}
 	if fn := p.Func("lib/signdeb.Sign"); fn == nil {
 		c.Undecided("R03h", "signdeb.Sign", "-", "function not found")
 	} else {
